@@ -17,6 +17,10 @@ RULE = ("exhaustive: every DAG on <=4 labelled nodes x every labelling up to ren
 EXHAUSTIVE_BLOCKS = ["all DAGs on <=4 nodes x all labellings up to renaming"]
 ASSUMPTIONS = ["networkx DiGraph / subgraph / degree / is_weakly_connected are modelled by their mathematical meaning",
                "acyclic inputs only (the property quantifies over acyclic graphs); node ids unique; edges between listed nodes"]
+ASSUMPTIONS += ["nx.is_directed_acyclic_graph is modelled by Kahn peeling (TracksCyc.v, proved to pass on every graph without closed walks and to "
+                "reject every class whose nodes all have a predecessor in the class); cyclic inputs (every digraph with a cycle on <=3 nodes x "
+                "labellings, and the repository's own cyclic test input) are in the correspondence only"]
+EXHAUSTIVE_BLOCKS += ["all digraphs with a directed cycle on <=3 nodes (self-loops allowed) x all labellings up to renaming: correspondence only"]
 
 
 def reference_partition(nodes, edges):
@@ -145,6 +149,27 @@ def run_impl(c):
     return out
 
 
+def _generate_cyclic():
+    """every digraph WITH a directed cycle (self-loops included) on <=3 nodes x every labelling: correspondence only (the property and
+    the oracle speak about acyclic graphs); ties the code's cycle test (nx.is_directed_acyclic_graph) to TracksCyc.v"""
+    from harness.tracks_gen import all_digraphs
+
+    for n in range(1, 4):
+        for edges in all_digraphs(n, loops=True):
+            if is_dag(n, edges):
+                continue
+            for labels in set_partitions(n):
+                yield dict(mk_case("tracklets", n, edges, labels), cyclic=True)
+
+
+_generate_acyclic = _generate
+
+
+def _generate(rng: random.Random, tier: str):  # noqa: F811
+    yield from _generate_acyclic(rng, tier)
+    yield from _generate_cyclic()
+
+
 def coq_case(c, o):
     if "exc" in o or None in o["named"]:
         return None
@@ -155,6 +180,8 @@ def coq_case(c, o):
 def oracle(c, o):
     if "exc" in o:
         return Failure(c, o, f"validate_tracklets raised {o['exc']}", {"why": "raises"})
+    if c.get("cyclic"):
+        return None  # outside the property (acyclic graphs): model correspondence only
     ref = reference_partition(c["nodes"], c["edges"])
     cl = classes(c["nodes"], c["labels"])
     bad = [t for t, ns in cl.items() if frozenset(ns) not in ref]
